@@ -337,8 +337,71 @@ def unit_reset():
     return run
 
 
+class IncModels(Models16):
+    """externals of get_info_incremental: queue_command (contract C01: the command is written once, every reply line goes to the
+    per-line callback in order) and the caller's line callback"""
+    def contract_for(self, ex, path, f, args, kw):
+        if f.qualname == 'TorControlProtocol.queue_command':
+            d = VOpaque('Deferred', ex.fresh_int(path, 'cmdd'))
+            self.glog_add(path, 'queued', (args[0], args[1] if len(args) > 1 else kw.get('arg', NONE), d))
+            return [(path, d)]
+        return Models16.contract_for(self, ex, path, f, args, kw)
+
+    def opaque_call(self, ex, path, f, args, kw):
+        if f.kind == 'line_cb':
+            self.glog_add(path, 'lines_delivered', tuple(args))
+            return [(path, NONE)]
+        return Models16.opaque_call(self, ex, path, f, args, kw)
+
+    def str_method(self, ex, path, s, name, args, kw):
+        from contracts.common import CommonModels as _CM
+        if name == 'strip':
+            return _CM.str_method(self, ex, path, s, name, args, kw)
+        return Models16.str_method(self, ex, path, s, name, args, kw)
+
+
+def unit_get_info_incremental():
+    """get_info_incremental(key, line_cb): GETINFO <key> with a per-line callback that hands every reply line to line_cb exactly as
+    received - the network-status parser depends on the exact text ('s ' of a relay without flags) - and swallows only the final OK"""
+    def run(ctx):
+        ctx.fn('txtorcon.torcontrolprotocol', 'TorControlProtocol.get_info_incremental')
+        import txtorcon.torcontrolprotocol as tcp
+        ex = ctx.ex
+        path = ctx.new_path()
+        pr = ex.new_inst(path, tcp.TorControlProtocol)
+        key, line = z3.String('key'), z3.String('reply_line')
+        ctx.input('key', VStr(key))
+        ctx.input('reply_line', VStr(line))
+        cb = VOpaque('line_cb', 9001)
+        g = ex.getattr_v(path, pr, 'get_info_incremental')
+        ctx.cover('pre_satisfiable', path)
+        for p, r in ex.call(g[0][0], g[0][1], [VStr(key), cb], {}):
+            q = ctx.models.glog(p, 'queued')
+            ok = (not isinstance(r, Raise)) and len(q) == 1 and isinstance(q[0][0], (VStr, VBytes)) and r is q[0][2]
+            ctx.oblige('post.one_getinfo_for_the_key_with_a_per_line_callback', p,
+                       zand(B(ok and not isinstance(q[0][1], VNone)), q[0][0].t == z3.Concat(mk_str('GETINFO '), key)) if ok else B(False))
+            if not ok:
+                continue
+            from pyvc.models import WS_STR, re_ws
+            is_ok = z3.InRe(line, z3.Concat(z3.Star(re_ws(WS_STR)), z3.Re(mk_str('OK')), z3.Star(re_ws(WS_STR))))
+            for p2, r2 in ex.call(p, q[0][1], [VStr(line)], {}):
+                got = ctx.models.glog(p2, 'lines_delivered')
+                if isinstance(r2, Raise):
+                    ctx.oblige('no_exception_from_the_line_callback_wrapper', p2, B(False))
+                    continue
+                exact = zand(B(len(got) == 1 and len(got[0]) == 1 and isinstance(got[0][0], VStr)), got[0][0].t == line) if len(got) == 1 and len(got[0]) == 1 and isinstance(got[0][0], VStr) else B(False)
+                ctx.oblige('post.every_reply_line_reaches_the_parser_verbatim_only_the_final_OK_is_swallowed', p2,
+                           z3.If(is_ok, B(len(got) == 0), exact),
+                           clause='each relay with the flags given in the document (the listing reaches the parser line by line, unaltered)')
+    return run
+
+
+def make_models_for(unit_name):
+    return IncModels() if 'get_info_incremental' in unit_name else Models16()
+
+
 def units():
-    out = [('C16/codec/b64_hex_b64', unit_codec('b64_hex_b64')), ('C16/codec/hex_b64_hex', unit_codec('hex_b64_hex')),
+    out = [('C16/get_info_incremental', unit_get_info_incremental()), ('C16/codec/b64_hex_b64', unit_codec('b64_hex_b64')), ('C16/codec/hex_b64_hex', unit_codec('hex_b64_hex')),
            ('C16/_update_network_status/reset', unit_reset())]
     for reuse in (True, False):
         for w in (True, False):
